@@ -314,7 +314,10 @@ class Instrument(ast.NodeTransformer):
         self.star_names = star_names or (lambda module, level: [])
         self.comp_depth = 0
         self.global_decl = {}   # scope id -> names declared global there
-        self.ann_self = {}      # position of an annotation read -> site of the target it annotates (x: x = v)
+        self.nonlocal_decl = {}
+        self.class_comp_reads = set()   # reads inside a comprehension (not its first iterable) written directly in a class body
+        self.global_sites = set()   # sites of bindings made under a global declaration inside a function
+        self.ann_range = {}     # position of an annotation read -> (start, end) of its annotated assignment
 
     # -- scope ids: module=0, each def/lambda/class/genexpr gets a fresh id
     def push(self, kind):
@@ -347,6 +350,8 @@ class Instrument(ast.NodeTransformer):
             rid = len(self.reads)
             self.reads[rid] = (node.lineno, node.col_offset, node.id)
             self.read_scope[rid] = self.cur[1]
+            if self.comp_depth and self.cur[0] == 'class':
+                self.class_comp_reads.add(rid)
             thunk = ast.Lambda(ast.arguments([], [], None, [], [], None, []), ast.Name(node.id, ast.Load()))
             if self.cur[0] == 'class' and self.comp_depth == 0:
                 return call('RC', const(rid), const(node.id), ast.Call(ast.Name('locals', ast.Load()), [], []), thunk)
@@ -388,8 +393,8 @@ class Instrument(ast.NodeTransformer):
         if not isinstance(node.target, ast.Name):
             raise Unsupported('annotated target')
         for n in ast.walk(node.annotation):
-            if isinstance(n, ast.Name) and n.id == node.target.id:
-                self.ann_self[(n.lineno, n.col_offset)] = site_of(node.target)
+            if isinstance(n, ast.Name):
+                self.ann_range[(n.lineno, n.col_offset)] = ((node.lineno, node.col_offset), (node.end_lineno, node.end_col_offset))
         node.annotation = self.visit(node.annotation)
         if node.value is not None:
             self.add_site(site_of(node.target), node.target.id, 'annassign')
@@ -502,6 +507,12 @@ class Instrument(ast.NodeTransformer):
     def visit_FunctionDef(self, node):
         if getattr(node, 'type_params', None):
             raise Unsupported('type params')
+        hdr = ((node.lineno, node.col_offset), (node.body[0].lineno, node.body[0].col_offset))
+        anns = [p.annotation for p in self._params(node.args) if p.annotation is not None] + ([node.returns] if node.returns else [])
+        for a in anns:
+            for n in ast.walk(a):
+                if isinstance(n, ast.Name):
+                    self.ann_range[(n.lineno, n.col_offset)] = hdr
         node.decorator_list = [self.visit(d) for d in node.decorator_list]
         self._visit_arguments(node.args)
         if node.returns is not None:
@@ -520,8 +531,17 @@ class Instrument(ast.NodeTransformer):
         for dcl in decls:
             if isinstance(dcl, ast.Global):
                 self.global_decl.setdefault(self.cur[1], set()).update(dcl.names)
+            else:
+                self.nonlocal_decl.setdefault(self.cur[1], set()).update(dcl.names)
         doc = []
         node.body = decls + doc + pre + self.body(rest)
+        mine = self.cur[1]
+        for site, (nm, kind, sid) in list(self.sites.items()):
+            if sid == mine and nm in self.global_decl.get(mine, ()):
+                self.sites[site] = (nm, kind, -2)            # a module-level binding made from inside a function
+                self.global_sites.add(site)
+            elif sid == mine and nm in self.nonlocal_decl.get(mine, ()):
+                self.sites[site] = (nm, kind, -1)            # belongs to some enclosing function
         self.pop()
         return [node, ast.Assign([ast.Name(node.name, ast.Store())],
                                  call('T', const(defsite), ast.Name(node.name, ast.Load())))]
@@ -718,6 +738,8 @@ class Program(object):
             if rt.cut:
                 exhaustive = False
             endings[rt.finished] = endings.get(rt.finished, 0) + 1
+            if rt.finished in ('TypeError', 'AttributeError', 'RecursionError', 'ImportError'):
+                exhaustive = False      # paths behind the abnormal end were not walked
             for rid, oc, site in rt.events:
                 results.setdefault(rid, set()).add((oc, site))
             if keep_traces:
